@@ -168,7 +168,7 @@ func (c *Collector) Add(v Violation) {
 // Report prints KNOWN-FINDING / VIOLATION lines, writes replay files and returns the number of
 // unlisted violations.
 func (c *Collector) Report(prop string) int {
-	printed := map[*Finding]bool{}
+	printed := map[string]bool{}
 	var sigs []string
 	for s := range c.KnownSeen {
 		sigs = append(sigs, s)
@@ -176,8 +176,8 @@ func (c *Collector) Report(prop string) int {
 	sort.Strings(sigs)
 	for _, s := range sigs {
 		k := c.KnownWhat[s]
-		if !printed[k] {
-			printed[k] = true
+		if !printed[k.What] {
+			printed[k.What] = true
 			fmt.Printf("KNOWN-FINDING: property=%s %s\n", k.Property, k.What)
 		}
 	}
@@ -186,6 +186,31 @@ func (c *Collector) Report(prop string) int {
 		sigs = append(sigs, s)
 	}
 	sort.Strings(sigs)
+	if dir := os.Getenv("VERIF_EMIT"); dir != "" {
+		type em struct {
+			Property  string   `json:"property"`
+			Signature string   `json:"signature"`
+			Count     int      `json:"count"`
+			Detail    []string `json:"detail"`
+			Ops       []string `json:"ops"`
+		}
+		var out []em
+		for _, s := range sigs {
+			v := c.New[s]
+			var ops []string
+			for _, o := range v.Ops {
+				ops = append(ops, o.String())
+			}
+			d := v.Detail
+			if len(d) > 6 {
+				d = d[:6]
+			}
+			out = append(out, em{prop, s, c.NewCount[s], d, ops})
+		}
+		os.MkdirAll(dir, 0755)
+		b, _ := json.MarshalIndent(out, "", " ")
+		ioutil.WriteFile(filepath.Join(dir, prop+".json"), b, 0644)
+	}
 	n := 0
 	for _, s := range sigs {
 		v := c.New[s]
